@@ -317,6 +317,12 @@ func (b *Built) Execute(r *rand.Rand) {
 	case "call":
 		res := b.Target.Call(args...)
 		env.emit(b.classify(res, s.Phase0))
+		if s.Family == "C16" && s.NDef > 0 && s.Bad == "" {
+			// the same function again, now without the values given at Call: the defaults apply (and only they)
+			env.Phase = s.Phase0 + 1
+			res2 := b.Target.Call(b.CnvArgs...)
+			env.emit(b.classify(res2, s.Phase0+1))
+		}
 	case "convcall":
 		// C10: Convert(T, args) and, on a second, freshly built and identically numbered set of objects
 		// (tokens shifted by TokOffset), Call of a function func(T) T with the same args
